@@ -92,7 +92,11 @@ type positionedWriter interface {
 func OpenReadable(reader io.ReaderAt, opts ...carv2.Option) (ReadableCar, error) {
 	sc := &StorageCar{opts: carv2.ApplyOptions(opts...)}
 
-	rr := internalio.ToReadSeeker(reader)
+	// read through ReadAt, from the start: a seek position the reader may also have is not relevant
+	rr, err := internalio.NewOffsetReadSeeker(reader, 0)
+	if err != nil {
+		return nil, err
+	}
 	header, err := carv1.ReadHeader(rr, sc.opts.MaxAllowedHeaderSize)
 	if err != nil {
 		return nil, err
